@@ -158,6 +158,69 @@ theorem history_miss (cfg : SenderCfg) {s : Sender} {q0 : Int} {sent : List RtpP
     · rfl
   · rfl
 
+/-! ### The RTX payload type `send(parameters)` derives from the codec list -/
+
+theorem rtxScan_spec (pt0 : Nat) (cs : List SendCodec) (hapt : ∀ c ∈ cs, c.isRtx = true → c.apt ≠ none) :
+    ∃ r, rtxScan pt0 cs = .ok r ∧
+      (r = none ↔ ∀ c ∈ cs, ¬ (c.isRtx = true ∧ c.apt = some pt0)) ∧
+      (∀ p, r = some p → ∃ pre c post, cs = pre ++ c :: post ∧ c.isRtx = true ∧ c.apt = some pt0 ∧ c.pt = p ∧
+        ∀ d ∈ pre, ¬ (d.isRtx = true ∧ d.apt = some pt0)) := by
+  induction cs with
+  | nil => exact ⟨none, rfl, by simp, fun p h => by cases h⟩
+  | cons c cs ih =>
+    obtain ⟨r, e, h1, h2⟩ := ih (fun d hd => hapt d (List.mem_cons_of_mem _ hd))
+    -- `c` does not match: the scan continues
+    have skip : ¬ (c.isRtx = true ∧ c.apt = some pt0) → rtxScan pt0 (c :: cs) = rtxScan pt0 cs →
+        ∃ r, rtxScan pt0 (c :: cs) = .ok r ∧
+          (r = none ↔ ∀ d ∈ c :: cs, ¬ (d.isRtx = true ∧ d.apt = some pt0)) ∧
+          (∀ p, r = some p → ∃ pre c' post, c :: cs = pre ++ c' :: post ∧ c'.isRtx = true ∧ c'.apt = some pt0 ∧ c'.pt = p ∧
+            ∀ d ∈ pre, ¬ (d.isRtx = true ∧ d.apt = some pt0)) := by
+      intro hc he
+      refine ⟨r, by rw [he, e], ?_, ?_⟩
+      · rw [h1]; constructor
+        · intro h d hd; rcases List.mem_cons.1 hd with rfl | hd
+          · exact hc
+          · exact h d hd
+        · intro h d hd; exact h d (List.mem_cons_of_mem _ hd)
+      · intro p hp
+        obtain ⟨pre, c', post, h3, h4, h5, h6, h7⟩ := h2 p hp
+        refine ⟨c :: pre, c', post, by rw [h3]; rfl, h4, h5, h6, ?_⟩
+        intro d hd; rcases List.mem_cons.1 hd with rfl | hd
+        · exact hc
+        · exact h7 d hd
+    cases hr : c.isRtx with
+    | false => exact skip (by simp [hr]) (by simp [rtxScan, hr])
+    | true =>
+      cases ha : c.apt with
+      | none => exact absurd ha (hapt c List.mem_cons_self hr)
+      | some a =>
+        by_cases hm : a = pt0
+        · subst hm
+          refine ⟨some c.pt, by simp [rtxScan, hr, ha], ⟨(fun h => by cases h), (fun h => absurd ⟨hr, ha⟩ (h c List.mem_cons_self))⟩, ?_⟩
+          intro p hp; injection hp with hp
+          exact ⟨[], c, cs, rfl, hr, ha, hp, by simp⟩
+        · exact skip (by rw [ha]; simp; intro _; exact hm) (by simp [rtxScan, hr, ha, hm])
+
+/-- **`rtxFor_spec`.** For ANY shape of `parameters.codecs` (rtx entries of other codecs before or after, several
+codecs each with rtx, duplicates, none) the sender retransmits as RTX iff some rtx codec names the SENDING payload
+type `codecs[0].payloadType` as its `apt`; the RTX payload type is that of the first such entry; otherwise
+retransmission is verbatim (`rtxPt = none`). -/
+theorem rtxFor_spec (c0 : SendCodec) (cs : List SendCodec) (hapt : ∀ c ∈ c0 :: cs, c.isRtx = true → c.apt ≠ none)
+    (ssrc rtxSsrc : Nat) (tsO : Int) :
+    ∃ cfg, SenderCfg.ofCodecs ssrc rtxSsrc (c0 :: cs) tsO = .ok cfg ∧ cfg.pt = c0.pt ∧ cfg.ssrc = ssrc ∧
+      cfg.rtxSsrc = rtxSsrc ∧
+      (cfg.rtxPt = none ↔ ∀ c ∈ c0 :: cs, ¬ (c.isRtx = true ∧ c.apt = some c0.pt)) ∧
+      (∀ p, cfg.rtxPt = some p → ∃ pre c post, c0 :: cs = pre ++ c :: post ∧ c.isRtx = true ∧ c.apt = some c0.pt ∧
+        c.pt = p ∧ ∀ d ∈ pre, ¬ (d.isRtx = true ∧ d.apt = some c0.pt)) := by
+  obtain ⟨r, e, h1, h2⟩ := rtxScan_spec c0.pt (c0 :: cs) hapt
+  exact ⟨⟨ssrc, rtxSsrc, c0.pt, r, tsO⟩, by simp only [SenderCfg.ofCodecs, rtxFor, e], rfl, rfl, rfl, h1, h2⟩
+
+/-- H264 (no rtx) first, then VP8 with its rtx: retransmissions of H264 are verbatim. -/
+example : SenderCfg.ofCodecs 1 2 [⟨96, false, none⟩, ⟨98, false, none⟩, ⟨99, true, some 98⟩] 0 = .ok ⟨1, 2, 96, none, 0⟩ := by decide
+/-- rtx of another codec listed first, duplicate rtx for the sending codec: the first matching one is used. -/
+example : SenderCfg.ofCodecs 1 2 [⟨96, false, none⟩, ⟨99, true, some 98⟩, ⟨97, true, some 96⟩, ⟨98, false, none⟩, ⟨101, true, some 96⟩] 0 =
+    .ok ⟨1, 2, 96, some 97, 0⟩ := by decide
+
 /-! ## 2. `NackGenerator` -/
 
 /-- **`add` never raises** on 16-bit sequence numbers (the `while` loop terminates) and keeps `NInv`. -/
